@@ -1207,9 +1207,13 @@ func TestLayerB(t *testing.T) {
 	t.Parallel()
 	id := wdEnter("layer B")
 	defer wdLeave(id)
-	n := run.Pick(72, 1000)
-	nChildren := run.Pick(4, 6)
-	tmp, err := os.MkdirTemp("", "c13b")
+	spawnChildren(t, "TestLayerB", "B", run.Pick(72, 1000), run.Pick(4, 6))
+}
+
+// spawnChildren runs the scenarios 0..n-1 of one end-to-end layer in nChildren child processes
+// (this test binary re-executed with -test.run ^testName$) and merges what they observed.
+func spawnChildren(t *testing.T, testName, layer string, n, nChildren int) {
+	tmp, err := os.MkdirTemp("", "c13"+layer)
 	if err != nil {
 		t.Fatal(err)
 	}
@@ -1228,12 +1232,15 @@ func TestLayerB(t *testing.T) {
 		go func() {
 			defer wg.Done()
 			out := filepath.Join(tmp, fmt.Sprintf("child%d.json", k))
-			cmd := exec.Command(os.Args[0], "-test.run", "^TestLayerB$", "-test.count=1", "-test.timeout=0")
+			cmd := exec.Command(os.Args[0], "-test.run", "^"+testName+"$", "-test.count=1", "-test.timeout=0")
 			cmd.Env = append(os.Environ(), "VERIF_C13_CHILD="+out, fmt.Sprintf("VERIF_C13_RANGE=%d:%d", lo, hi),
-				fmt.Sprintf("GORACE=halt_on_error=0 log_path=%s.child%d", raceLog, k))
+				fmt.Sprintf("GORACE=halt_on_error=0 log_path=%s.child%s%d", raceLog, layer, k))
 			txt, _ := cmd.CombinedOutput()
+			if os.Getenv("VERIF_C13_DEBUG") != "" {
+				fmt.Println(string(txt))
+			}
 			if err := mergeChild(out); err == nil {
-				run.Count("B_child_processes_completed", 1)
+				run.Count(layer+"_child_processes_completed", 1)
 				return
 			}
 			// the child died: attribute a process-fatal error to the workload
@@ -1249,7 +1256,7 @@ func TestLayerB(t *testing.T) {
 						end = len(lines)
 					}
 					violation(0, "ha.HASyncer (active+standby over loopback)", "no-process-fatal-error", cls,
-						fmt.Sprintf("the end-to-end push/reconnect workload (layer B scenarios %d..%d) killed the process: %s", lo, hi-1, strings.TrimSpace(l)), lines[i:end])
+						fmt.Sprintf("the end-to-end push/reconnect workload (layer %s scenarios %d..%d) killed the process: %s", layer, lo, hi-1, strings.TrimSpace(l)), lines[i:end])
 					return
 				}
 			}
@@ -1257,7 +1264,7 @@ func TestLayerB(t *testing.T) {
 			if len(tail) > 15 {
 				tail = tail[len(tail)-15:]
 			}
-			run.Inconclusive(fmt.Sprintf("layerB-child-%d", k), "child process ended without results and without a recognisable fatal error: "+strings.Join(tail, " | "))
+			run.Inconclusive(fmt.Sprintf("layer%s-child-%d", layer, k), "child process ended without results and without a recognisable fatal error: "+strings.Join(tail, " | "))
 		}()
 	}
 	wg.Wait()
